@@ -60,11 +60,14 @@ def params_to_coq(p):
         cpairs(p['prefix_limits']), cgr(p['gr']), cllgr(p['llgr']))
 
 def op_to_val(o):
-    return [{'connect': 0, 'disconnect': 1, 'admin': 2}[o[0]], addr_to_val(o[1]), int(o[2])]
+    return [{'connect': 0, 'disconnect': 1, 'admin': 2, 'disable': 3, 'enable': 4, 'delete': 5}[o[0]], addr_to_val(o[1]), int(o[2])]
 
 def op_to_coq(o):
     if o[0] == 'connect': return '(OConnect %s %s)' % (caddr(o[1]), crole(o[2]))
     if o[0] == 'disconnect': return '(ODisconnect %s %s)' % (caddr(o[1]), crole(o[2]))
+    if o[0] == 'disable': return '(ODisable %s)' % caddr(o[1])
+    if o[0] == 'enable': return '(OEnable %s)' % caddr(o[1])
+    if o[0] == 'delete': return '(ODelete %s)' % caddr(o[1])
     return '(OAdmin %s %s)' % (caddr(o[1]), cbool(o[2]))
 
 def acc_to_val(c):
@@ -107,7 +110,7 @@ def canon_acc(obs):
 class Prop:
     pid = 'C16'
     props_file = 'Props/C16.v'
-    required_theorems = ['negotiate_mirror', 'family_in_force_iff_both', 'flags_in_force_iff_both', 'graceful_restart_mirror', 'send_max_iff_addpath_tx', 'llgr_mirror', 'contains_eq_bit_prefix', 'contains_beyond_width', 'send_max_any_filter_refuted', 'llgr_all_entries_refuted', 'accept_iff_permitted', 'accept_only_if_text', 'session_fields_from_config', 'dynamic_peer_removed', 'dynamic_peers_have_connections', 'peer_group_inheritance', 'local_cap_from_config']
+    required_theorems = ['negotiate_mirror', 'family_in_force_iff_both', 'flags_in_force_iff_both', 'graceful_restart_mirror', 'send_max_iff_addpath_tx', 'llgr_mirror', 'contains_eq_bit_prefix', 'contains_beyond_width', 'send_max_any_filter_refuted', 'llgr_all_entries_refuted', 'accept_iff_permitted', 'accept_only_if_text', 'session_fields_from_config', 'dynamic_peer_removed', 'dynamic_peers_have_connections', 'peer_group_inheritance', 'local_cap_from_config', 'admission_independent_of_group_order', 'overlapping_groups_order_dependent']
     correspondence_name = ('Model/Negotiate.v vs packet/src/bgp.rs IpNet::contains, PeerCodec::negotiate (harness/hx-neg) and '
                            'daemon fsm.rs effective send-max, event/mod.rs negotiate_gr/negotiate_llgr (harness/daemon/event_hx.rs verif_neg_cases); '
                            'Model/Accept.v vs event/mod.rs accept_connection, Global::add_peer, PeerSession::run bookkeeping and event/peer.rs '
@@ -260,7 +263,10 @@ class Prop:
                 prev = [o for o in ops if o[0] == 'connect']
                 o = rng.choice(prev) if prev and rng.random() < 0.8 else ('connect', a, rng.choice([0, 1]))
                 ops.append(('disconnect', o[1], o[2]))
-            else: ops.append(('admin', a, rng.random() < 0.6))
+            elif x < 0.89: ops.append(('admin', a, rng.random() < 0.6))
+            elif x < 0.94: ops.append(('disable', a, 0))
+            elif x < 0.97: ops.append(('enable', a, 0))
+            else: ops.append(('delete', a, 0))
         return dict(kind='acc', asn=65000, rid=0x01000001, confed=confed, restarting=rng.random() < 0.15,
                     groups=groups, statics=statics, ops=[list(o) for o in ops])
 
@@ -538,7 +544,7 @@ class Prop:
                     if got is None or not got[flag]: return 'op %d: accepted connection not recorded' % k
                     if row is not None:
                         exp[key][flag] = 1
-                        want = want_static.get(key, (None, None))[0] or dyn.get(key)
+                        want = dyn[key] if key in dyn else want_static.get(key, (None, None))[0]
                     else:
                         # a dynamic neighbour: the settings of a group whose prefix contains the address
                         ok = None
@@ -562,8 +568,18 @@ class Prop:
                     exp[key][flag] = 0
                     if row['delete'] and not exp[key]['ca'] and not exp[key]['cp']:
                         del exp[key]       # a dynamic neighbour's state disappears with its last connection
-            else:
+            elif kind == 'admin':
                 if key in exp: exp[key]['admin'] = int(arg)
+            elif kind == 'enable':
+                if key in exp: exp[key]['admin'] = 0
+            elif kind == 'delete':
+                exp.pop(key, None); want_static.pop(key, None); dyn.pop(key, None)
+            elif kind == 'disable':
+                if key in exp and not exp[key]['admin']:
+                    had = exp[key]['ca'] or exp[key]['cp']
+                    exp[key].update(admin=1, ca=0, cp=0)      # its connections are torn down
+                    if had and exp[key]['delete']: del exp[key]
+            if key not in exp: dyn.pop(key, None)
             if exp != after:
                 diff = sorted(set(exp) ^ set(after)) or [kk for kk in exp if exp[kk] != after[kk]]
                 return 'op %d (%s): neighbour table is not what the operation should leave (%s)' % (k, kind, diff[:2])
